@@ -63,6 +63,13 @@ def o17_2_destroy(mir, tier):
         st = ev(env, 'release_lock') if isinstance(v, dict) and v.get('__ty') == 'FileLock' else env['$state']
         return [(None, (), st)]
     P[r'std::mem::drop'] = drop_lock; P[r'core::mem::drop'] = drop_lock
+    def drop_hook(se, env, ty, val):
+        # a FileLock (or the Result holding it) going out of scope releases the lock
+        v = val
+        if isinstance(v, Enum) and v.tag == 'Ok' and v.fields: v = v.fields[0]
+        if isinstance(v, dict) and v.get('__ty') == 'FileLock' and 'release_lock' not in env['$state']['events']:
+            st = dict(env['$state']); st['events'] = st['events'] + ['release_lock']; env['$state'] = st
+    S['$drop'] = drop_hook
     ex = Exec(mir, S, loop_bound=8, opaque_calls_ok=True, max_paths=4000)
     def k(ret, env, pc):
         evs = env['$state']['events']; ok = isinstance(ret, Enum) and ret.tag == 'Ok'
@@ -71,11 +78,13 @@ def o17_2_destroy(mir, tier):
                  ('destroy_database removes something before it holds the database lock', BoolVal(not removes or ('lock' in evs and evs.index('lock') < removes[0]))),
                  ('destroy_database reports success although the lock could not be taken or the directory could not be listed', Or(BoolVal(not ok), And(lock_ok, list_ok))),
                  ('the lock file is removed while other files of the database are still to be removed', BoolVal('remove:lock_file_path' not in evs or all(evs.index('remove:lock_file_path') > i for i in removes if evs[i] not in ('remove:lock_file_path', 'remove:db_path')))),
-                 ('destroy_database reports success although a removal failed', Or(BoolVal(not ok), And(*rm.values())))]
+                 ('destroy_database reports success although a removal failed', Or(BoolVal(not ok), And(*rm.values()))),
+                 ('destroy_database gives the database lock up before it has removed the files of the database (it only probes the lock: another handle can open the database while it is being deleted)',
+                  BoolVal('release_lock' not in evs or all(i < evs.index('release_lock') for i in removes if evs[i] not in ('remove:lock_file_path', 'remove:db_path'))))]
         res.cases[('Ok ' if ok else 'Err ') + ','.join(evs)[:100]] = 1
         for label, post, m in ex.check_posts(posts, pc):
-            rep = 'although the database lock could not be taken' in label or 'before it holds the database lock' in label
-            res.violations.append({'label': label, 'events': evs, 'replay': ['second_open'] if rep else None, 'confirmed_by': None if rep else {'reproduced': False, 'detail': 'no native scenario for this label'}})
+            rep = 'although the database lock could not be taken' in label or 'before it holds the database lock' in label or 'only probes the lock' in label
+            res.violations.append({'label': label, 'events': evs, 'replay': ['open_during_destroy'] if 'only probes the lock' in label else ['second_open'] if rep else None, 'confirmed_by': None if rep else {'reproduced': False, 'detail': 'no native scenario for this label'}})
     env = {'$state': {'events': []}}
     ex.top(fn, [{'abstract': True, '__ty': 'DbOptions'}], env, [], k)
     ex.bound_hits = []
@@ -133,7 +142,8 @@ def o17_3_drop(mir, tier):
                      ('the worker thread is not stopped and joined', BoolVal('stop_worker' in evs and 'join_worker' in evs))]
             res.cases['pending=%d %s' % (pending, ','.join(evs))] = 1
             for label, post, m in ex.check_posts(posts, pc):
-                res.violations.append({'label': label, 'events': evs, 'replay': None, 'confirmed_by': {'reproduced': False, 'detail': 'no native scenario for this label'}})
+                rep = 'still scheduled' in label or 'does not wait' in label
+                res.violations.append({'label': label, 'events': evs, 'replay': ['close_while_background_busy'] if rep else None, 'confirmed_by': None if rep else {'reproduced': False, 'detail': 'no native scenario for this label'}})
         g = mir.mk_struct('GuardedDbFields', background_compaction_scheduled=BoolVal(pending > 0))
         db = mir.mk_struct('DB', db_lock=Enum('Some', ({'abstract': True, '__ty': 'FileLock'},)), guarded_fields='mutex', is_shutting_down='flag', background_work_finished_signal='cv',
                            wal='walptr', compaction_worker={'abstract': True, '__ty': 'CompactionWorker'})
@@ -146,3 +156,15 @@ def o17_3_drop(mir, tier):
     res.wall_s = time.time() - t0
     if res.violations: res.status = 'violation'
     return res
+
+
+def o17_confirm(v, out):
+    """Native scenarios on the disk file system (real flock)."""
+    from .dbopen import o17_1_confirm
+    if out.get('_rc') != 0 and not out.get('_timeout'): return (False, 'native run failed: %s' % out.get('_stderr', '')[-300:])
+    r = v['replay'][0]
+    if r == 'open_during_destroy':
+        return (out.get('open_during_destroy') == 'ok', 'a DB::open attempted while destroy_database was deleting files: %s' % out.get('open_during_destroy'))
+    if r == 'close_while_background_busy':
+        return (out.get('open_while_closing') == 'ok', 'background work of the closing instance still scheduled, one spurious wake-up: a second open %s' % out.get('open_while_closing'))
+    return o17_1_confirm(v, out)
